@@ -122,7 +122,11 @@ Definition judge1 (c : case) : verdict :=
     end in
   if N.eqb (c_aspect c) 0
   then {| v_model := m_build && m_parse && m_pre && m_dump && m_reparse;
-          v_class := if overlap_free accepted then 0 else 1;
+          v_class := if negb (overlap_free accepted) then 1
+                     else match o_parse c with
+                          | POk cfg => if skipped_target_present (p_links p) cfg then 3 else 0
+                          | _ => 0
+                          end;
           v_spec := s_core |}
   else {| v_model := m_build && m_parse && m_dump;
           v_class := 2;
